@@ -102,6 +102,9 @@ impl UserDefinedDataReader {
             return;
         };
         self.matched_publication_list.remove(i);
+        // A writer that is gone does not own instances anymore: the next writer of an instance takes it over
+        self.instance_ownership
+            .retain(|x| &x.owner_handle != publication_handle.as_ref());
 
         self.subscription_matched_status.current_count = self.matched_publication_list.len() as i32;
         self.subscription_matched_status.current_count_change -= 1;
